@@ -52,14 +52,20 @@ async def authenticator(
     """ Keep the credentials forever up to date. """
     counter: int = 0 if vault.is_empty() else 1
     while True:
-        await authenticate(
-            registry=registry,
-            settings=settings,
-            indices=indices,
-            vault=vault,
-            memo=memo,
-            _activity_title="Re-authentication" if counter else "Initial authentication",
-        )
+        try:
+            await authenticate(
+                registry=registry,
+                settings=settings,
+                indices=indices,
+                vault=vault,
+                memo=memo,
+                _activity_title="Re-authentication" if counter else "Initial authentication",
+            )
+        except ActivityError:
+            # The failed login handlers mean no new credentials. Unfreeze the API clients waiting
+            # for them, so that they fail (as when nothing is retrieved) instead of hanging forever.
+            # Stay alive: the next request for the credentials must be answered too.
+            await vault.populate({})
         counter += 1
 
 
